@@ -82,6 +82,9 @@ def value_to_string(value):
     return str(value)
 
 
+NOTFOUND = object()   # what a first-match search returns internally when nothing matched (None is a legitimate entry value)
+
+
 class Container(dict):
     # NOTE: be careful when working with these objects. Any method can be shadowed, so instead of doing `self.items()` you should do `dict.items(self)`. Operation that use methods implicitly (such as `x in self` or `self[k]`) will work as usual.
     r"""
@@ -182,7 +185,7 @@ class Container(dict):
             try:
                 if isinstance(value, (Container, ListContainer)):
                     ret = value.__class__._search(value, compiled_pattern, search_all)
-                    if ret is not None:
+                    if ret is not NOTFOUND:
                         if search_all:
                             items.extend(ret)
                         else:
@@ -197,14 +200,15 @@ class Container(dict):
         if search_all:
             return items
         else:
-            return None
+            return NOTFOUND
 
     def search(self, pattern):
         """
         Searches a container (non-recursively) using regex.
         """
         compiled_pattern = re.compile(pattern)
-        return self.__class__._search(self, compiled_pattern, False)
+        ret = self.__class__._search(self, compiled_pattern, False)
+        return None if ret is NOTFOUND else ret
 
     def search_all(self, pattern):
         """
@@ -276,7 +280,7 @@ class ListContainer(list):
                 ret = item.__class__._search(item, compiled_pattern, search_all)
             except Exception:
                 continue
-            if ret is not None:
+            if ret is not NOTFOUND:
                 if search_all:
                     items.extend(ret)
                 else:
@@ -284,14 +288,15 @@ class ListContainer(list):
         if search_all:
             return items
         else:
-            return None
+            return NOTFOUND
 
     def search(self, pattern):
         """
         Searches a container (non-recursively) using regex.
         """
         compiled_pattern = re.compile(pattern)
-        return self._search(compiled_pattern, False)
+        ret = self._search(compiled_pattern, False)
+        return None if ret is NOTFOUND else ret
 
     def search_all(self, pattern):
         """
